@@ -12,6 +12,8 @@ mod c13_ser;
 mod c13_rd;
 #[path = "c13_coq.rs"]
 mod c13_coq;
+#[path = "c13_br.rs"]
+mod c13_br;
 
 const HEADER: &str = r#"From ZV.Common Require Import Base Run.
 From ZV.C13 Require Import Model ModelRun.
@@ -55,7 +57,9 @@ impl Ctx {
         if self.skip.contains(&self.case_no) { return false; }
         if let Some(f) = self.probe_log.as_mut() {
             use std::io::Write;
-            let _ = writeln!(f, "{}", json!({"n": self.case_no, "case": cj}));
+            // one write per case: the log file is unbuffered and a serde_json value prints itself piecewise
+            let line = format!("{}\n", json!({"n": self.case_no, "case": cj}));
+            let _ = f.write_all(line.as_bytes());
             let _ = f.flush();
         }
         true
@@ -156,7 +160,9 @@ fn known_gv(xs: &[u64]) -> bool { xs.iter().any(|&v| v >= (1u64 << 32)) }
 fn single_u64(cx: &mut Ctx, si: usize, v: u64, tail: &[u8], force: bool) {
     let (strat, name) = STRATS[si];
     let cell = format!("VarIntEncoder/{}/u64", name);
-    let e = VarIntEncoder::new(strat);
+    // the preset constructor (VarIntEncoder::leb128() ...) on half of the cases; it must build the same encoder
+    let e = if tail.len() % 2 == 1 { c13_br::preset(si) } else { VarIntEncoder::new(strat) };
+    if e.strategy() != strat { cx.sum.fail(&cell, None, case_json(0, si, &[v as i128], tail), &format!("the preset constructor of {} builds strategy {:?}", name, e.strategy())); return; }
     let key = format!("u64 {} {} {:?}", si, v, tail);
     cx.sum.eval(&cell, &key, v >= 128);
     let enc = guarded(|| e.encode_u64(v));
@@ -189,7 +195,9 @@ fn single_u64(cx: &mut Ctx, si: usize, v: u64, tail: &[u8], force: bool) {
 fn single_i64(cx: &mut Ctx, si: usize, v: i64, tail: &[u8], force: bool) {
     let (strat, name) = STRATS[si];
     let cell = format!("VarIntEncoder/{}/i64", name);
-    let e = VarIntEncoder::new(strat);
+    // the preset constructor (VarIntEncoder::leb128() ...) on half of the cases; it must build the same encoder
+    let e = if tail.len() % 2 == 1 { c13_br::preset(si) } else { VarIntEncoder::new(strat) };
+    if e.strategy() != strat { cx.sum.fail(&cell, None, case_json(2, si, &[v as i128], tail), &format!("the preset constructor of {} builds strategy {:?}", name, e.strategy())); return; }
     let key = format!("i64 {} {} {:?}", si, v, tail);
     cx.sum.eval(&cell, &key, v >= 64 || v < -64);
     let enc = guarded(|| e.encode_i64(v));
@@ -222,7 +230,9 @@ fn single_i64(cx: &mut Ctx, si: usize, v: i64, tail: &[u8], force: bool) {
 fn seq_u64(cx: &mut Ctx, si: usize, xs: &[u64], tail: &[u8], force: bool) {
     let (strat, name) = STRATS[si];
     let cell = format!("VarIntEncoder/{}/u64_seq", name);
-    let e = VarIntEncoder::new(strat);
+    // the preset constructor (VarIntEncoder::leb128() ...) on half of the cases; it must build the same encoder
+    let e = if tail.len() % 2 == 1 { c13_br::preset(si) } else { VarIntEncoder::new(strat) };
+    if e.strategy() != strat { cx.sum.fail(&cell, None, case_json(4, si, &xs.iter().map(|&x| x as i128).collect::<Vec<_>>(), tail), &format!("the preset constructor of {} builds strategy {:?}", name, e.strategy())); return; }
     let key = format!("u64s {} {:?} {:?}", si, xs, tail);
     cx.sum.eval(&cell, &key, xs.len() >= 2);
     cx.sum.dist(&format!("seq_len_mod4={}", xs.len() % 4));
@@ -264,7 +274,9 @@ fn seq_u64(cx: &mut Ctx, si: usize, xs: &[u64], tail: &[u8], force: bool) {
 fn seq_i64(cx: &mut Ctx, si: usize, xs: &[i64], tail: &[u8], force: bool) {
     let (strat, name) = STRATS[si];
     let cell = format!("VarIntEncoder/{}/i64_seq", name);
-    let e = VarIntEncoder::new(strat);
+    // the preset constructor (VarIntEncoder::leb128() ...) on half of the cases; it must build the same encoder
+    let e = if tail.len() % 2 == 1 { c13_br::preset(si) } else { VarIntEncoder::new(strat) };
+    if e.strategy() != strat { cx.sum.fail(&cell, None, case_json(6, si, &xs.iter().map(|&x| x as i128).collect::<Vec<_>>(), tail), &format!("the preset constructor of {} builds strategy {:?}", name, e.strategy())); return; }
     let key = format!("i64s {} {:?} {:?}", si, xs, tail);
     cx.sum.eval(&cell, &key, xs.len() >= 2);
     let ints: Vec<i128> = xs.iter().map(|&x| x as i128).collect();
@@ -314,11 +326,20 @@ fn varint_u(cx: &mut Ctx, v: u64, tail: &[u8], force: bool) {
         let el = VarInt::encoded_len(v);
         let mut w = Vec::new();
         let n = VarInt::write_to(&mut w, v).ok();
-        (enc, buf, dec, el, w, n)
+        // write_to_vec appends to what the buffer already holds; read_from takes exactly the value's bytes from a DataInput
+        let mut pre = tail.to_vec();
+        let n2 = VarInt::write_to_vec(&mut pre, v).ok();
+        let mut inp = zipora::io::SliceDataInput::new(&buf);
+        let rd = VarInt::read_from(&mut inp).ok();
+        let extra = n2 == Some(enc.len()) && pre[..tail.len()] == tail[..] && pre[tail.len()..] == enc[..] && rd == Some(v) && inp.pos() == enc.len() && inp.remaining_slice() == tail
+            && zipora::io::DataInput::has_remaining(&inp) == Some(!tail.is_empty())
+            && VarInt::fits_in_one_byte(v) == (enc.len() == 1) && VarInt::fits_in_two_bytes(v) == (enc.len() <= 2) && enc.len() <= VarInt::MAX_ENCODED_LEN;
+        (enc, buf, dec, el, w, n, extra)
     });
     match r {
         Err(p) => cx.sum.fail(cell, None, cj, &format!("panicked: {}", p)),
-        Ok((enc, buf, dec, el, w, n)) => {
+        Ok((enc, buf, dec, el, w, n, extra)) => {
+            if !extra { cx.sum.fail(cell, None, cj.clone(), "write_to_vec (appending) / read_from (DataInput) / fits_in_one_byte / fits_in_two_bytes disagree with encode"); }
             cx.coq(8, 0, &[v as i128], &[], &Some(enc.iter().map(|&b| b as i128).collect()), force);
             cx.coq(9, 0, &[], &buf, &dec.map(|(x, n)| vec![x as i128, n as i128]), force);
             cx.coq(12, 0, &[v as i128], &[], &Some(vec![el as i128]), force);
@@ -417,9 +438,9 @@ fn run_one(cx: &mut Ctx, c: &Value) {
             "complex" => { let (k, i, s, t) = c13_ser::parse_case(c); c13_ser::complex(cx, k, &i, &s, &t) }
             "smart_ptr" => { let (k, i, s, t) = c13_ser::parse_case(c); c13_ser::smart_ptr(cx, k, &i, &s, &t) }
             "versioning" => { let (k, i, s, t) = c13_ser::parse_case(c); c13_ser::versioning(cx, k, &i, &s, &t) }
-            "reader" => { let (k, d, cfg, ops) = c13_rd::parse_reader(c); c13_rd::reader(cx, k, &d, &cfg, &ops, true) }
+            "reader" => { let (k, d, cfg, ops) = c13_rd::parse_reader(c); c13_rd::reader_g(cx, k, &d, c13_rd::parse_gen(c), &cfg, &ops, true) }
             "writer" => { let (k, _, cfg, ops) = c13_rd::parse_reader(c); c13_rd::writer(cx, k, &cfg, &ops) }
-            _ => {}
+            _ => { c13_br::run_case(cx, c); }
         }
         return;
     }
@@ -479,12 +500,35 @@ fn run_new_cells(cx: &mut Ctx, args: &Args) {
     for (k, &n) in [65535usize, 65536, 65537, 100_000, 131_072, 131_073].iter().enumerate() {
         for i in 0..c13_io::N_IN {
             if !t && (k + i) % 2 == 1 { continue; }
-            let blob: Vec<u8> = (0..n).map(|x| ((x as u32).wrapping_mul(2654435761) >> 13) as u8).collect();
-            let long = if k % 2 == 0 { c13_io::Item::Bytes(blob) } else { c13_io::Item::Str(blob.iter().map(|b| (b'a' + b % 26) as char).collect()) };
+            let long = c13_io::Item::Gen((k % 2) as u8, n, (k * 100 + i) as u64);
             let items = vec![c13_io::Item::U8(1), long, c13_io::Item::Var(300), c13_io::Item::Raw(vec![5; 3])];
             cx.sum.dist("data_io_long_value");
             c13_io::data_io(cx, &items, (k + i) % c13_io::N_OUT, i, &[0xFE], (k * 13 + i) as u64);
         }
+    }
+    // long skips and raw reads: the reader back ends skip in 8 KiB pieces, the buffered writers switch to direct writes at
+    // 8 KiB (bulk threshold) / half the 64 KiB buffer; every output back end once, every input back end at every size
+    for (k, &n) in [8191usize, 8192, 8193, 20_000, 32_768, 70_000].iter().enumerate() {
+        for i in 0..c13_io::N_IN {
+            if !t && (k + i) % 2 == 0 { continue; }
+            let items = vec![c13_io::Item::U16(0xBEEF), c13_io::Item::Gen(3, n, k as u64), c13_io::Item::Var(1 << 40), c13_io::Item::Gen(2, n + 1, 7 + k as u64), c13_io::Item::Gen(4, n - 1, 9), c13_io::Item::U8(9)];
+            cx.sum.dist("data_io_long_skip");
+            c13_io::data_io(cx, &items, (3 * k + i) % c13_io::N_OUT, i, &[0xFD, 0x80], (k * 17 + i * 3) as u64);
+        }
+    }
+    for o in 0..c13_io::N_OUT {
+        let items = vec![c13_io::Item::Gen(2, 8191, 1), c13_io::Item::U8(1), c13_io::Item::Gen(0, 8192, 2), c13_io::Item::Gen(1, 32_767, 3), c13_io::Item::Gen(2, 32_768, 4), c13_io::Item::Var(5), c13_io::Item::Gen(0, 65_536, 5), c13_io::Item::U32(6)];
+        cx.sum.dist("data_io_long_write");
+        c13_io::data_io(cx, &items, o, o % c13_io::N_IN, &[0xFC], o as u64 * 5 + 1);
+    }
+    // batches whose encoding is just below / at / above the 32 bytes the AVX2 decoder wants, counts around the batch threshold
+    for k in 26..=38usize {
+        let ones = vec![1u64; k];
+        c13_io::simd_batch(cx, &ones, &[], false);
+        let mut wide = vec![u64::MAX; 3];
+        wide.extend(std::iter::repeat(300u64).take(k % 4));
+        c13_io::simd_batch(cx, &wide, &[0x81], false);
+        c13_io::simd_batch(cx, &ub[..k.min(ub.len())], &[], false);
     }
     for _ in 0..(if t { 12000 } else { 900 }) {
         let mut r = cx.rng.clone();
@@ -528,18 +572,25 @@ fn run_new_cells(cx: &mut Ctx, args: &Args) {
         if k % 2 == 1 { c13_ser::versioning(cx, k / 2, &vints, &ss, &tail); }
     }
     // readers and writers under arbitrary histories
-    for k in 0..(if t { 60000 } else { 4400 }) {
+    for k in 0..(if t { 70000 } else { 5200 }) {
         let mut r = cx.rng.clone();
         let (data, cfg, ops) = c13_rd::gen_reader_case(&mut r, k);
         cx.rng = r;
         c13_rd::reader(cx, k, &data, &cfg, &ops, false);
     }
-    for k in 0..(if t { 20000 } else { 1500 }) {
+    // big inputs, preset configurations, thresholds far from the small cases (deterministic family)
+    for (kind, gen, cfg, ops) in c13_rd::big_reader_cases(t) {
+        let data = c13_rd::gen_data(gen.0, gen.1, gen.2);
+        c13_rd::reader_g(cx, kind, &data, Some(gen), &cfg, &ops, false);
+    }
+    for k in 0..(if t { 30000 } else { 2400 }) {
         let mut r = cx.rng.clone();
         let (cfg, ops) = c13_rd::gen_writer_case(&mut r, k);
         cx.rng = r;
         c13_rd::writer(cx, k, &cfg, &ops);
     }
+    // long sequences, the strategy chooser, big collections, migrations and cross-version records
+    c13_br::run_all(cx, t);
     if cx.format_drift { cx.sum.dist("format_drift"); }
 }
 
